@@ -12,10 +12,13 @@ CONSTANTS Sizes,      \* side lengths (powers of two)
           ResKinds,   \* kinds of user resources that may be added
           MaxRes,
           Access,     \* explore pixel access on the built texture
-          Fills       \* how the pixels are provided (opaque to the layout; replayed by the driver)
+          Fills,      \* how the pixels are provided (opaque to the layout; replayed by the driver)
+          History,    \* explore what may be done with a texture that was read before it is saved again
+          MaxOps      \* bound on those steps
 
-VARIABLES v, phase, file, out, act
-vars == <<v, phase, file, out>>
+VARIABLES v, phase, file, out, hs, act
+vars == <<v, phase, file, out, hs>>
+NoHist == [lv |-> <<>>, n |-> 0, file2 |-> <<>>, out2 |-> <<>>]
 
 NoSheet == [has |-> FALSE, ver |-> 0, seqs |-> <<>>]
 None == [w |-> 0]
@@ -31,7 +34,7 @@ ResOf(kind, k) ==
       [] kind = "data" -> [id |-> IF k = 1 THEN "4b5644" ELSE "78797a", inline |-> FALSE, flags |-> 0, val |-> 0, len |-> 5 + k]
       [] kind = "data0" -> [id |-> IF k = 1 THEN "717171" ELSE "727272", inline |-> FALSE, flags |-> 2, val |-> 0, len |-> 0]
 
-Init == v = None /\ phase = "new" /\ file = None /\ out = None /\ act = [op |-> "init"]
+Init == v = None /\ phase = "new" /\ file = None /\ out = None /\ hs = NoHist /\ act = [op |-> "init"]
 
 Create(w, h, n, lay, minor, f, low, fill) ==
     /\ phase = "new" /\ phase' = "built"
@@ -81,12 +84,42 @@ Read ==
     /\ UNCHANGED <<v, file>>
     /\ act' = [op |-> "read"]
 
+(* ---- a texture that came from a file: load / look / compute / clear, then save and read again ---- *)
+\* VTF.read leaves every frame lazy; none of these steps touches a pixel value
+Reading == phase = "read" /\ History
+More == hs.n < MaxOps
+LoadFrames(sel) == /\ Reading /\ More /\ CanLoad(hs.lv, sel)
+                   /\ hs' = [hs EXCEPT !.lv = HLoad(hs.lv, sel), !.n = @ + 1]
+                   /\ act' = [op |-> "load", sel |-> sel]
+LookAt(m) == /\ Reading /\ More /\ m < Len(hs.lv) /\ hs.lv[m + 1].st # "cleared"
+             /\ hs' = [hs EXCEPT !.lv = HAccess(hs.lv, m), !.n = @ + 1]
+             /\ act' = [op |-> "look", m |-> m]
+Compute == /\ Reading /\ More
+           /\ hs' = [hs EXCEPT !.lv = HCompute(hs.lv), !.n = @ + 1]
+           /\ act' = [op |-> "compute"]
+Clear(after) == /\ Reading /\ More /\ after < Len(hs.lv)
+                /\ hs' = [hs EXCEPT !.lv = HClear(hs.lv, after), !.n = @ + 1]
+                /\ act' = [op |-> "clear", after |-> after]
+Resave == /\ Reading /\ phase' = "resaved"
+          /\ hs' = [hs EXCEPT !.file2 = [j \in 1..Len(hs.lv) |-> Term(hs.lv, j - 1)]]
+          /\ act' = [op |-> "resave"]
+Reread == /\ phase = "resaved" /\ phase' = "reread"
+          /\ hs' = [hs EXCEPT !.out2 = hs.file2]
+          /\ act' = [op |-> "reread"]
+
 Next == \/ \E w \in Sizes, h \in Sizes, n \in FrameCounts, lay \in Layers, minor \in Minors, f \in Fmts, low \in Lows,
-              fill \in Fills : Create(w, h, n, lay, minor, f, low, fill)
-        \/ \E kind \in ResKinds : AddResource(kind)
-        \/ \E ver \in {0, 1} : AddSheet(ver)
+              fill \in Fills : Create(w, h, n, lay, minor, f, low, fill) /\ UNCHANGED hs
+        \/ ((\E kind \in ResKinds : AddResource(kind)) /\ UNCHANGED hs)
+        \/ ((\E ver \in {0, 1} : AddSheet(ver)) /\ UNCHANGED hs)
         \/ (phase = "built" /\ Access /\ \E x \in Coords(v.w), y \in Coords(v.h) : GetPixel(x, y) \/ SetPixel(x, y))
-        \/ Save \/ Read
+        \/ (Save /\ UNCHANGED hs)
+        \/ (Read /\ hs' = IF History THEN [NoHist EXCEPT !.lv = LvInit(v.mip)] ELSE NoHist)
+        \/ ((\E sel \in {"top", "small", "all"} : LoadFrames(sel)) /\ UNCHANGED <<v, phase, file, out>>)
+        \/ ((\E m \in 0..3 : LookAt(m)) /\ UNCHANGED <<v, phase, file, out>>)
+        \/ (Compute /\ UNCHANGED <<v, phase, file, out>>)
+        \/ ((\E a \in 0..1 : Clear(a)) /\ UNCHANGED <<v, phase, file, out>>)
+        \/ (Resave /\ UNCHANGED <<v, file, out>>)
+        \/ (Reread /\ UNCHANGED <<v, file, out>>)
 Spec == Init /\ [][Next]_<<vars, act>>
 
 (* ---- the listed property ---------------------------------------------------------- *)
@@ -125,7 +158,22 @@ RoundTrip ==
 \* from 7.3 on nothing of the resources is lost; before, there is nowhere to put them
 Gate == phase = "read" => (v.minor >= 3 => (Len(out.c.res) = Len(v.res) /\ out.c.sheet = v.sheet))
 
+\* what was stored is what is stored again: a level that was not erased holds the pixels of the
+\* same level of the file, whatever was loaded or looked at in between; an erased level holds the
+\* average of the level above it; and the second file has the structure of the first
+Kept == phase = "reread" =>
+          /\ Len(hs.out2) = v.mip
+          /\ \A m \in 0..(v.mip - 1) :
+                IF hs.lv[m + 1].st = "file" THEN hs.out2[m + 1] = [base |-> m, avgs |-> 0]
+                ELSE hs.out2[m + 1] = [base |-> hs.out2[m].base, avgs |-> hs.out2[m].avgs + 1]
+LazyUnobservable == phase \in {"resaved", "reread"} =>
+          hs.file2 = [j \in 1..Len(hs.lv) |-> Term([q \in 1..Len(hs.lv) |-> [hs.lv[q] EXCEPT !.loaded = FALSE]], j - 1)]
+Untouched == (phase = "reread" /\ \A j \in 1..Len(hs.lv) : hs.lv[j].st = "file") =>
+          hs.out2 = [j \in 1..v.mip |-> [base |-> j - 1, avgs |-> 0]]
+
 View == vars
-Emit == act'.op = "read" \/
-        PrintT(ToJson([tag |-> "EDGE", s |-> [v |-> v], a |-> act', t |-> [v |-> v']]))
+\* the history family prints Read steps too (its paths go through them)
+Emit == (act'.op = "read" /\ ~History) \/
+        PrintT(ToJson([tag |-> "EDGE", s |-> [v |-> v, h |-> hs.lv, n |-> hs.n, ph |-> phase], a |-> act',
+                       t |-> [v |-> v', h |-> hs'.lv, n |-> hs'.n, ph |-> phase']]))
 =============================================================================
